@@ -34,3 +34,10 @@ Proof. reflexivity. Qed.
 Example anchor_base_directives : base_config_directives = ["config"; "config_file"; "config_str"].
 Proof. reflexivity. Qed.
 Example anchor_path_str : path_str_strips_leading_dot = true. Proof. reflexivity. Qed.
+
+(* C10: Diff.phase_order / Diff.resolve_parents model this loop of _apply_changes *)
+Example anchor_apply_changes_phases :
+  apply_changes_phases = ["DeleteValue"; "RemoveTag"; "ModifyValue"; "SetValue"; "AddTag"].
+Proof. reflexivity. Qed.
+Example anchor_apply_changes_parents : apply_changes_resolves_parents_first = true.
+Proof. reflexivity. Qed.
